@@ -156,9 +156,16 @@ def build(net: dict):
     for a, b in net["edges"]:
         ktn.add_ts((np.array(pts[a]) + np.array(pts[b])) / 2.0, 100.0, a, b)
     st = np.random.get_state()
-    coords = StandardCoordinates(ndim=dim, bounds=[(-10.0, 10.0)] * dim)
+    # the selectors rank by the plain Euclidean distance whatever the matching options of the similarity object are and
+    # whatever the shape of the box: a third of the networks get a box that is 100 times wider along the first
+    # coordinate, two thirds a similarity object that MATCHES in box-proportional units
+    variant = len(pts) % 3
+    bounds = [(-10.0, 10.0)] * dim
+    if variant == 1 and dim >= 1:
+        bounds = [(-1000.0, 1000.0)] + [(-10.0, 10.0)] * (dim - 1)
+    coords = StandardCoordinates(ndim=dim, bounds=bounds)
     np.random.set_state(st)
-    sim = StandardSimilarity(0.01, 0.01)
+    sim = StandardSimilarity(0.01, 0.01, proportional_distance=(variant != 0))
     return ktn, sim, coords
 
 
